@@ -195,6 +195,9 @@ func (e *env) newObject(typeName string, h *simrt.Handle) any {
 		if f.IsValid() && f.Kind() == reflect.Int {
 			f.SetInt(sentinelInt)
 		}
+		if f.IsValid() && cu.Anon {
+			f.Field(0).SetInt(sentinelInt)
+		}
 	}
 	e.ptrID[keyOf(v)] = h.ID
 	e.hands[h.ID] = h
@@ -248,6 +251,9 @@ func (e *env) checkFrame(id string) []string {
 		f := fieldAt(obj, t.Name, cu.Embed, cu.Field)
 		if f.IsValid() && f.Kind() == reflect.Int && f.Int() != sentinelInt {
 			bad = append(bad, fmt.Sprintf("%s.%s (custom-tagged field) was modified", id, cu.Field))
+		}
+		if f.IsValid() && cu.Anon && f.Field(0).Int() != sentinelInt {
+			bad = append(bad, fmt.Sprintf("%s.%s (custom-tagged anonymous struct field) was modified", id, cu.Field))
 		}
 	}
 	return bad
@@ -534,8 +540,12 @@ func (e *env) main(inClose, closeReturned *bool) {
 	for _, inst := range p.Instances {
 		inst := inst
 		h := &simrt.Handle{ID: inst.ID, Alias: inst.Alias, Qual: inst.Qual, Kind: inst.Kind, Ord: inst.Order, C: ctx}
-		if len(inst.InitLookups) != 0 {
+		if len(inst.InitLookups) != 0 || inst.SetKey != "" {
 			h.LookupFn = func(h *simrt.Handle) error {
+				if inst.SetKey != "" && theApp != nil {
+					ctx.Log("init-set", inst.ID, inst.SetKey)
+					theApp.Configure.Set(inst.SetKey, inst.SetVal)
+				}
 				for _, tid := range inst.InitLookups {
 					tgt := p.InstByID(tid)
 					if tgt == nil || theApp == nil {
@@ -650,6 +660,9 @@ func (e *env) main(inClose, closeReturned *bool) {
 	ordered := make([]any, len(comps))
 	for i, k := range perm {
 		ordered[i] = comps[k]
+		if p.InstByID(compIDs[k]) != nil {
+			obs.RegOrder = append(obs.RegOrder, compIDs[k])
+		}
 	}
 
 	// snapshot hook
@@ -713,6 +726,20 @@ func (e *env) main(inClose, closeReturned *bool) {
 	if runErr != nil {
 		obs.RunErr = true
 		obs.ErrText = firstLine(runErr.Error())
+	}
+	if obs.RegPanic {
+		// the application recovered the rejection: who owns the names now?
+		obs.RegOwner = map[string]string{}
+		func() {
+			defer func() { _ = recover() }()
+			names := reg.GetSingletonNames()
+			sort.Strings(names)
+			for _, n := range names {
+				if c, err := reg.GetSingleton(n); err == nil && c != nil {
+					obs.RegOwner[n] = e.idOf(reflect.ValueOf(c))
+				}
+			}
+		}()
 	}
 	if ctx.OverBudget {
 		// the run exceeded its event budget (non-termination): no further phases
@@ -856,6 +883,17 @@ func (e *env) main(inClose, closeReturned *bool) {
 				continue
 			}
 			obs.Lookup[inst.ID] = lookup(inst)
+		}
+		// configuration fields of lazy components (created by the lookups above at the latest)
+		for _, inst := range p.Instances {
+			if p.TypeByName(inst.Type).Lazy {
+				if c := e.cfgOf(inst.ID); c != nil {
+					if obs.CfgLate == nil {
+						obs.CfgLate = map[string]map[string]string{}
+					}
+					obs.CfgLate[inst.ID] = c
+				}
+			}
 		}
 	}
 	if obs.Panic == "" && obs.RunErr && spec.Continue {
